@@ -157,6 +157,10 @@ structure AClosed (P : Eff → Prop) : Prop extends CClosed P where
                  ps := { e.ps with nid := e.ps.nid + 1, held := e.ps.held.filter (fun p => p.1 != i) } }
   crashed : ∀ e l, P e → P { e with ps := { e.ps with crashed := l } }
   cancels : ∀ e l, P e → P { e with cancels := l }
+  hookLate : ∀ e pid hook, P e →
+      P { e with ps := { e.ps with late := e.ps.late ++ [(pid, hook)], lateAtt := hook :: e.ps.lateAtt } }
+  hookEarly : ∀ e id hook, P e → P { e with ps := { e.ps with hookOf := e.ps.hookOf ++ [(id, hook)] } }
+  level : ∀ e l, P e → P { e with ps := { e.ps with level := l } }
 
 /-- … and that does not look at log entries other than `finish` -/
 structure Closed (P : Eff → Prop) : Prop extends AClosed P where
@@ -267,6 +271,15 @@ theorem runAct_aclosed {P : Eff → Prop} (hc : AClosed P) (now : Nat) (e : Eff)
   | fresh f => exact hc.bind e f [] 0 h
   | crash x => exact hc.crashed _ _ h
   | restore x => exact hc.crashed _ _ h
+  | addHook kind hook =>
+    simp only [runAct]
+    split
+    · unfold addHookTo
+      split
+      · exact hc.hookLate _ _ _ h
+      · exact hc.hookEarly _ _ _ h
+    · exact h
+  | metric x abs v => exact hc.level _ _ h
 
 theorem runAct_closed {P : Eff → Prop} (hc : Closed P) (now : Nat) (e : Eff) (a : Act) (h : P e) :
     P (runAct now e a) := runAct_aclosed hc.toAClosed now e a h
@@ -298,6 +311,9 @@ theorem closed_and {P Q : Eff → Prop} (hp : Closed P) (hq : Closed Q) : Closed
   release := fun e i sp h hm => ⟨hp.release e i sp h.1 hm, hq.release e i sp h.2 hm⟩
   crashed := fun e l h => ⟨hp.crashed e l h.1, hq.crashed e l h.2⟩
   cancels := fun e l h => ⟨hp.cancels e l h.1, hq.cancels e l h.2⟩
+  hookLate := fun e pid hook h => ⟨hp.hookLate e pid hook h.1, hq.hookLate e pid hook h.2⟩
+  hookEarly := fun e id hook h => ⟨hp.hookEarly e id hook h.1, hq.hookEarly e id hook h.2⟩
+  level := fun e l h => ⟨hp.level e l h.1, hq.level e l h.2⟩
   obs := fun e o ho h => ⟨hp.obs e o ho h.1, hq.obs e o ho h.2⟩
 
 end HappyModel.C01
